@@ -121,8 +121,8 @@ def run(ctx):
         args.append((shard_probe, ('-lz5-', lo, lo + 512)))
     for lo in range(0, 2048, 512):
         args.append((shard_probe, ('-lzs-', lo, lo + 512)))
-    n = 120 if ctx.tier == 'quick' else 4000
-    reps = 1 if ctx.tier == 'quick' else 4
+    n = 1500 if ctx.tier == 'quick' else 20000
+    reps = 2 if ctx.tier == 'quick' else 8
     for r in range(reps):
         args.append((shard_random, ('-lz5-', ctx.seed * 31 + r, n)))
         args.append((shard_random, ('-lzs-', ctx.seed * 37 + r, n)))
